@@ -221,3 +221,56 @@ def case_segments(ctx, cfg):
         if e is not None or not np.array_equal(np.asarray(r), exact):
             ctx.fail(f"segmentcollection:{dim}d:single-point", "contains", {"a": a, "q": [str(x) for x in q]}, exact, e if e is not None else np.asarray(r))
             return
+
+
+# ---------------------------------------------------------------------------------------------------
+# history: membership of a polygon / segment derived (transformed, copied) from one that was already queried
+
+
+def enum_history(tier, seed):
+    for name in ("square", "dart", "L", "triangle_ccw"):
+        for emb in ("2d", "z=1", "generic"):
+            yield (name, emb)
+
+
+@family("C16", "membership_after_transformation", enum_history)
+def case_history(ctx, cfg):
+    import geometer as G
+
+    name, emb = cfg
+    poly = SL.POLYGONS[name]
+    V = poly if emb == "2d" else [SL.embed(emb, *v) for v in poly]
+    dim = len(V[0])
+    qs2 = SL.half_grid(poly)
+    Q = [q if emb == "2d" else SL.embed(emb, *q) for q in qs2]
+    exact = np.array([SL.pip(poly, q) != "outside" for q in qs2])
+    shift = (3, -2) if dim == 2 else (3, -2, 1)
+    QC = G.PointCollection(np.array([fpt(q) for q in Q]))
+    QCs = G.PointCollection(np.array([fpt([a + b for a, b in zip(q, shift)]) for q in Q]))
+    t = G.translation(*shift)
+    for cname, cls in polygon_class(G, name, len(V)):
+        P0 = cls(*[G.Point(np.array(list(v) + [1], dtype=float)) for v in V])
+        ctx.state((name, emb, cname))
+        # queries first, then derive, then query the derived polygon
+        r0, e0 = ctx.call(P0.contains, QC)
+        _ = ctx.call(lambda: (P0.edges, P0.area, P0.vertices))
+        for how, Pd, pts in (("transformed", t * P0, QCs), ("copied", P0.copy(), QC), ("shifted-by-point", P0 + G.Point(*shift), QCs)):
+            r, e = ctx.call(Pd.contains, pts)
+            ctx.trace(len(Q))
+            if e is not None or not np.array_equal(np.asarray(r), exact):
+                ctx.fail(f"polygon:{'2d' if dim == 2 else '3d'}:{cname}:contains-after-queries:{how}", "contains", {"polygon": name, "embedding": emb, "class": cname, "derived_by": how}, "membership in the derived polygon", e if e is not None else "stale")
+                return
+            r, e = ctx.call(lambda: Pd.contains(G.Point(np.array(pts.array[3]))))
+            if e is not None or bool(r) != bool(exact[3]):
+                ctx.fail(f"polygon:{'2d' if dim == 2 else '3d'}:{cname}:contains-after-queries:{how}:single", "contains", {"polygon": name, "embedding": emb, "derived_by": how}, bool(exact[3]), e if e is not None else bool(r))
+                return
+    a, b = V[0], V[1]
+    S = G.Segment(G.Point(np.array(list(a) + [1.0])), G.Point(np.array(list(b) + [1.0])))
+    ex = np.array([SL.on_segment(q, a, b) for q in Q])
+    _ = ctx.call(S.contains, QC)
+    for how, Sd, pts in (("transformed", t * S, QCs), ("copied", S.copy(), QC)):
+        r, e = ctx.call(Sd.contains, pts)
+        ctx.trace(len(Q))
+        if e is not None or not np.array_equal(np.asarray(r), ex):
+            ctx.fail(f"segment:contains-after-queries:{how}", "contains", {"a": a, "b": b, "derived_by": how}, "membership in the derived segment", e if e is not None else "stale")
+            return
